@@ -361,8 +361,19 @@ pub fn run(ctx: &Ctx) -> (Spec, Report) {
         }
         files.push(SrcFile { path: "user/src/lib.rs".into(), source: file_src[0].clone() });
         files.push(SrcFile { path: "user/src/second.rs".into(), source: file_src[1].clone() });
-        let tree = Tree { files, n_source_files: np + 2, has_consts: false };
-        let variants = (0..ctx.tier.pick(20, 60)).map(|i| (format!("process#{i}"), vec![])).collect();
+        // half of the trees: a third module of the user crate defines a type of the same name itself
+        let mut n_user = 2;
+        if rng.coin() {
+            files.push(SrcFile { path: "user/src/local.rs".into(), source: "#[typeshare]\npub struct Thing { pub own: bool }\n#[typeshare]\npub struct LocalUser { pub t: Thing }\n".into() });
+            n_user = 3;
+        }
+        let tree = Tree { files, n_source_files: np + n_user, has_consts: false };
+        // fresh processes (hash seeds, real arrival order) and forced arrival orders of the per-file results
+        let mut variants: Vec<(String, Vec<(String, String)>)> = (0..ctx.tier.pick(12, 40)).map(|i| (format!("process#{i}"), vec![])).collect();
+        variants.push(("order=rev".into(), vec![("TYPESHARE_VERIF_ORDER".to_string(), "rev".to_string())]));
+        for sd in 0..ctx.tier.pick(8, 30) {
+            variants.push((format!("order=seed:{sd}"), vec![("TYPESHARE_VERIF_ORDER".to_string(), format!("seed:{sd}"))]));
+        }
         jobs.push(Job { tree, lang, multi: true, variants, label: "fresh-processes-ambiguous-names".into() });
     }
     for &lang in ALL_LANGS.iter() {
